@@ -88,8 +88,17 @@ def gen_refrace(seed, rng, tier):
         for a in actors:
             a["ops"] = [rng.choice(["del", "rm", "unpack", "unpack", "pack"])
                         for _ in a["ops"]]
+    # names nested as directory versus file: p0 works on refs/heads/x, the
+    # others on refs/heads/x/sub, whose lock lives in a directory that p0's
+    # clean-up of "empty" directories may look at (own generator)
+    nested = random.Random(derive_seed(seed, "c07nest")).random() < 0.25
+    if nested:
+        init = "absent"
+        for a in actors:
+            a["ops"] = [o if o in ("add", "set", "del", "cas_zero", "rm")
+                        else "set" for o in a["ops"]]
     return {"kind": "refrace", "seed": seed, "sched": sched,
-            "actors": actors, "init": init,
+            "actors": actors, "init": init, "nested": nested,
             "reader": rng.random() < 0.6,
             "clock": {"step_lo_ns": 0,
                       "step_hi_ns": rng.choice([0, 1000, 10**6])}}
@@ -259,6 +268,11 @@ def run_refrace(plan):
               step_cap=20000)
     name = b"refs/heads/x"
     rel = "repo/.git/refs/heads/x"
+    nested = bool(plan.get("nested"))
+    parent_name = name
+    if nested:
+        name = b"refs/heads/x/sub"
+        rel = "repo/.git/refs/heads/x/sub"
     v0 = b"%040x" % 1
     with util.Sandbox() as root:
         fs = simfs.FS(root, sim, {})
@@ -276,7 +290,10 @@ def run_refrace(plan):
         mon = RefLockMonitor(sim, root, rel)
         full = os.path.join(root, rel)
 
-        def pusher(spec, idx):
+        def pusher(spec, idx, name=name):
+            if nested and idx == 0:
+                name = parent_name
+
             def body(a):
                 r = Repo(rp)
                 try:
@@ -312,6 +329,12 @@ def run_refrace(plan):
                             # locked_ref on a ref whose directory is gone;
                             # deleting what is not there
                             sim.stat("refrace_refused")
+                        except (OSError, ValueError):
+                            if not nested:
+                                raise
+                            # refs/heads/x against refs/heads/x/sub: one of
+                            # the two is refused, however it is worded
+                            sim.stat("probe:nested_name_refused")
                 finally:
                     r.close()
             return body
@@ -338,7 +361,9 @@ def run_refrace(plan):
         if R.lexists(full + ".lock"):
             sim.violation("C07/lock-leaked/refrace",
                           "the ref's lock file is left behind")
-        data = util.read_real(full) if R.lexists(full) else None
+        import stat as _st
+        data = util.read_real(full) if R.lexists(full) and \
+            not _st.S_ISDIR(R.lstat(full).st_mode) else None
         if data is not None and not _complete_ref(data):
             sim.violation("C07/torn-content/final",
                           f"ref file at the end: {data!r:.60}")
